@@ -188,6 +188,42 @@ def run(ctx):
             if got != want:
                 T.fail("spec", {"fn": "close-reason", "reason": m.hex()}, str(want), str(got),
                        {"site": "ABNF.validate", "class": "close-reason", "shape": shape(m)})
+        # close reasons of the maximal length (123 bytes) ending in every kind of tail
+        for tail in (b"", b"a", "é".encode(), "€".encode(), "😀".encode(), b"\xc3", b"\xe2\x82", b"\xf0\x9f\x98", b"\xed\xa0\x80", b"\xff"):
+            for n in (123, 122, 60):
+                m = b"r" * (n - len(tail)) + tail
+                ok = ctx.spec.run([f"utf8spec {hx(m)}"])[0] == "1"
+                ws, s = connected_ws([("D", server_frame(0x8, (1000).to_bytes(2, "big") + m))])
+                try:
+                    op, fr = ws.recv_data_frame(True)
+                    got = ("ok", op)
+                except Exception as e:
+                    got = ("raise", exn_class(e))
+                want = ("ok", 8) if ok else ("raise", "Protocol")
+                T.case(("close-long", n, tail), bucket="close_reason")
+                if got != want:
+                    T.fail("spec", {"fn": "close-reason", "reason": m.hex()}, str(want), str(got),
+                           {"site": "ABNF.validate", "class": "close-reason", "shape": shape(m), "len": n})
+        # a refused text message ends that message only: what follows on the same connection is judged on its own
+        for bad in (b"\xff", b"ab\xc3", b"price: \xe2\x82"):
+            for frag in (False, True):
+                first = [("D", server_frame(1, bad[:1], fin=0)), ("D", server_frame(0, bad[1:], fin=1))] if frag else [("D", server_frame(1, bad))]
+                after = [("D", server_frame(1, b"\xac 5")), ("D", server_frame(1, "fine €".encode())), ("D", server_frame(2, b"\x00\x01")),
+                         ("D", server_frame(1, b"t", fin=0)), ("D", server_frame(0, b"ail", fin=1))]
+                ws, s = connected_ws(first + after)
+                seen = []
+                for _ in range(5):
+                    try:
+                        v = ws.recv()
+                        seen.append(("ok", v))
+                    except Exception as e:
+                        seen.append(("raise", exn_class(e)))
+                want = [("raise", "Payload"), ("raise", "Payload"), ("ok", "fine €"), ("ok", b"\x00\x01"), ("ok", "tail")]
+                T.case(("after-refusal", bad, frag), nontrivial=True, bucket="after_refusal")
+                if seen != want:
+                    T.fail("spec", {"fn": "after-refusal", "bad": bad.hex(), "fragmented": frag}, str(want), str(seen),
+                           {"site": "WebSocket.recv", "class": "state-after-refused-message"},
+                           what="after a text message was refused, the following messages were not judged and delivered on their own")
         T.validated += T.dist.get("api_recv", 0) + T.dist.get("api_skip", 0) + T.dist.get("close_reason", 0)
 
     return T.result(
@@ -255,6 +291,8 @@ def replay(ctx, sc):
             got = recv_text(frags, skip=True, use_recv_data=True)
             want = ("ok", (1, m))
         return None if got == want else {"want": str(want), "got": str(got)}
+    if sc["fn"] == "after-refusal":
+        return {"note": "rerun ./check C06 quick (fixed scenarios)"}
     if sc["fn"] == "close-reason":
         m = bytes.fromhex(sc["reason"])
         ok = ctx.spec.run([f"utf8spec {hx(m)}"])[0] == "1"
